@@ -7,7 +7,8 @@
   `<pre-id>` / `<post-id>` name schema sets stored with `defschemas`: the PRE-chain IR (front-end
   output) and the REAL post-Go-chain IR of one lab case.  The driver evaluates, at one fuel,
     plain : `Plain pre`                                  (hypothesis of C01_pass_widening_plain_partial)
-    plainN: `PlainN pre`                                 (hypothesis of C01_pass_widening_nullable_partial)
+    plainN: `PlainX pre`                                 (hypothesis of C01_pass_widening_ext_partial: `T | null`
+                                                          pairs, anonymous enums with fresh generated names)
     src   : `srcDen fuel pre (ref pkg object) doc`       (hypothesis)
     den   : `den (fuel+1) post (ref pkg object) doc`     (conclusion, on the REAL passes' output; for a
                                                           plain `pre` the theorem gives `fuel` and `den` is
@@ -17,6 +18,7 @@
   `notplain` names the first construct outside the plain fragment.
 -/
 import Cog.Sem.SrcDen
+import Cog.Sem.WidenChainN
 import Cog.Passes.Chain
 import Cog.Gen.Chains
 import Cog.Drv.SchemaStore
@@ -158,6 +160,8 @@ def nrTyWhy : Ty → Option String
     if nullPair bs then none
     else if bs.length == 2 && hasNullType bs then some "disjunction-with-null-of-non-plain"
     else plainTyWhy (.disj bs i m)
+  | .enum (_ :: _) _ => none
+  | .enum [] _ => some "empty-enum"
   | t => plainTyWhy t
 
 def nrObjWhy : Ty → Option String
@@ -201,9 +205,11 @@ def srcPrep (id : String) (pre : Schemas) : IO SrcPrep := do
   | none =>
     let p : SrcPrep := {
       plain := Plain pre
-      plainN := PlainN pre
+      plainN := PlainX pre
       notplain := (plainWhy pre).getD "-"
-      notplainN := (plainNWhy pre).getD "-"
+      notplainN := match plainNWhy pre with
+        | some r => r
+        | none => if enumFresh (nullOptS (nrS pre)) then "-" else "generated-enum-name-not-fresh"
       model := match runChain Cog.Gen.Chains.goChain pre with | .ok s => some s | _ => none }
     srcPrepStore.modify (·.insert id p)
     return p
